@@ -267,6 +267,9 @@ func (ke *KeyExchange) ConfirmResponder(rB *ecdsa.PublicKey, sB []byte) ([]byte,
 	if !ke.privateKey.IsOnCurve(rB.X, rB.Y) {
 		return nil, nil, errors.New("sm2: invalid responder's ephemeral public key")
 	}
+	if ke.r == nil || ke.secret == nil || ke.secret.X == nil || ke.secret.Y == nil {
+		return nil, nil, errors.New("sm2: InitKeyExchange must be called before ConfirmResponder")
+	}
 	ke.peerSecret = rB
 
 	ke.mqv()
@@ -293,6 +296,10 @@ func (ke *KeyExchange) ConfirmResponder(rB *ecdsa.PublicKey, sB []byte) ([]byte,
 
 // ConfirmInitiator for responder's step B10
 func (ke *KeyExchange) ConfirmInitiator(s1 []byte) ([]byte, error) {
+	if ke.r == nil || ke.peerSecret == nil || ke.peerSecret.X == nil || ke.v == nil || ke.v.X == nil || ke.v.Y == nil ||
+		(ke.v.X.Sign() == 0 && ke.v.Y.Sign() == 0) {
+		return nil, errors.New("sm2: no shared point, RepondKeyExchange must succeed before ConfirmInitiator")
+	}
 	if s1 != nil {
 		buffer := ke.sign(true, 0x03)
 		if subtle.ConstantTimeCompare(buffer, s1) != 1 {
